@@ -129,26 +129,46 @@ class Py2CppModel:
 					return self._const_value(r[1].class_attrs[ch.rsplit('.', 1)[1]])  # type: ignore
 		return None
 
-	def _branch_facts(self, f: FuncInfo, node: ast.AST) -> dict[str, str]:
-		"""facts pinned by the enclosing if-tests on the true side: {'spec': member, 'context_name': value, 'spec_enum': dotted enum}"""
-		pm = parent_map(f.node)
-		facts: dict[str, str] = {}
-		cur = node
-		while id(cur) in pm:
-			par = pm[id(cur)]
-			if isinstance(par, ast.If) and any(cur is s for s in par.body):
-				for cmp in ast.walk(par.test):
-					if isinstance(cmp, ast.Compare) and len(cmp.ops) == 1 and isinstance(cmp.ops[0], ast.Eq) and isinstance(cmp.left, ast.Name):
-						rhs = cmp.comparators[0]
-						ch = attr_chain(rhs)
-						if ch and '.Tags.' in ch:
-							facts.setdefault(cmp.left.id, ch.split('.')[-1])
-							facts.setdefault(cmp.left.id + '#enum', ch.rsplit('.', 1)[0])
-						else:
-							v = self._const_value(rhs)
-							if v is not None:
-								facts.setdefault(cmp.left.id, v)
-			cur = par
+	def _branch_facts(self, f: FuncInfo, node: ast.AST) -> dict[str, object]:
+		"""facts known at node (enclosing branches, earlier exiting guards, conditional expressions): for a local compared with enum members
+		or constants, the set of values it can still hold: {'spec': {members}, 'spec#enum': dotted enum, 'context_name': {values}}"""
+		from vlib.match import atoms
+		pos: dict[str, set[str]] = {}
+		neg: dict[str, set[str]] = {}
+		facts: dict[str, object] = {}
+
+		def value_of(rhs: ast.AST, var: str) -> str | None:
+			ch = attr_chain(rhs)
+			if ch and '.Tags.' in ch:
+				facts.setdefault(var + '#enum', ch.rsplit('.', 1)[0])
+				return ch.split('.')[-1]
+			return self._const_value(rhs)
+
+		for a, pol in atoms(f.node, node):
+			if not (isinstance(a, ast.Compare) and len(a.ops) == 1 and isinstance(a.left, ast.Name)):
+				continue
+			var, rhs = a.left.id, a.comparators[0]
+			if isinstance(a.ops[0], (ast.Eq, ast.Is)):
+				v = value_of(rhs, var)
+				if v is not None:
+					(pos if pol else neg).setdefault(var, set())
+					if pol:
+						pos[var] = (pos[var] & {v}) if pos[var] else {v}
+					else:
+						neg[var].add(v)
+			elif isinstance(a.ops[0], ast.In) and isinstance(rhs, (ast.List, ast.Tuple, ast.Set)):
+				vs = {value_of(e, var) for e in rhs.elts}
+				if None in vs:
+					continue
+				if pol:
+					pos[var] = (pos[var] & vs) if var in pos and pos[var] else set(vs)
+				else:
+					neg.setdefault(var, set()).update(vs)
+		for var, vs in pos.items():
+			facts[var] = vs - neg.get(var, set())
+		for var, vs in neg.items():
+			if var not in pos:
+				facts[var + '#not'] = vs
 		return facts
 
 	def _pinned_elsewhere(self, f: FuncInfo, spec_member: str, var: str) -> set[str]:
@@ -166,81 +186,95 @@ class Py2CppModel:
 		return out
 
 	def _resolve(self, s: RenderSite) -> None:
-		f, t = s.func, s.tmpl
-		if const_str(t) is not None:
-			s.names = {const_str(t)}
-			return
-		if isinstance(t, ast.Name):
-			vals = self._local_values(f, t.id, s.call)
-			if vals is None:
-				s.unresolved = f'template expression `{unparse(t)}` is a non-constant name'
-			else:
-				s.names = vals
-			return
-		if not isinstance(t, ast.JoinedStr):
-			s.unresolved = f'template expression `{unparse(t)}` is neither a constant nor an f-string'
-			return
-		facts = self._branch_facts(f, s.call)
-		parts: list[list[str]] = []
-		for v in t.values:
-			if isinstance(v, ast.Constant):
-				parts.append([str(v.value)])
-				continue
-			e = v.value
-			src = unparse(e)
-			if src == 'node.classification':
-				cls = {f.name[3:]} if f.name.startswith('on_') and f.name != 'on_fallback' else self.classifications_reaching(f.name)
-				if not cls:
-					s.unresolved = f'no on_* handler reaches {f.name}, cannot bound node.classification'
-					return
-				parts.append(sorted(cls))
-			elif src == 'spec.name':
-				if 'spec' not in facts:
-					s.unresolved = 'spec.name used outside a branch pinning `spec == <Enum>.Tags.<member>`'
-					return
-				members = self._enum_members(facts.get('spec#enum', ''))
-				if members is not None and facts['spec'] not in members:
-					s.unresolved = f'{facts.get("spec#enum")}.{facts["spec"]} is not a member of the enum'
-					return
-				parts.append([facts['spec']])
-			elif src == 'context_name':
-				if 'context_name' in facts:
-					parts.append([facts['context_name']])
-				elif 'spec' in facts:
-					owner = self.mod.classes.get(facts.get('spec#enum', '').rsplit('.', 1)[0])
-					lst = owner.class_attrs.get(f'{facts["spec"]}_methods') if owner else None
-					vals = self._const_list(lst, owner) if lst is not None else None
-					if vals is None:
-						s.unresolved = f'context_name is not pinned and {facts["spec"]}_methods is not a constant list'
-						return
-					rest = [x for x in vals if x not in self._pinned_elsewhere(f, facts['spec'], 'context_name')]
-					parts.append(rest)
-				else:
-					s.unresolved = 'context_name used without a pinned spec'
-					return
-			elif isinstance(e, ast.Name):
-				vals = self._local_values(f, e.id, s.call)
-				if vals is None:
-					s.unresolved = f'cannot bound local `{e.id}` in template expression'
-					return
-				parts.append(sorted(vals))
-			else:
-				s.unresolved = f'unsupported interpolation `{src}`'
-				return
-		s.names = {''.join(p) for p in itertools.product(*parts)}
+		vals, why = self._values(s.func, s.tmpl, 0)
+		if vals is None:
+			s.unresolved = why
+		else:
+			s.names = vals
 
-	def _local_values(self, f: FuncInfo, name: str, at: ast.AST) -> set[str] | None:
-		"""string values a local can hold: constants, node.classification, dict.get(k, default) over a constant dict"""
+	def _classifications(self, f: FuncInfo) -> set[str]:
+		return {f.name[3:]} if f.name.startswith('on_') and f.name != 'on_fallback' else self.classifications_reaching(f.name)
+
+	def _values(self, f: FuncInfo, e: ast.AST, depth: int) -> tuple[set[str] | None, str]:
+		"""the finite set of strings expression e (a node inside f) can evaluate to, or (None, reason)"""
+		if depth > 4:
+			return None, f'template expression `{unparse(e)}` is too deep'
+		if const_str(e) is not None:
+			return {const_str(e)}, ''
+		src = unparse(e)
+		if isinstance(e, ast.IfExp):
+			a, wa = self._values(f, e.body, depth + 1)
+			b, wb = self._values(f, e.orelse, depth + 1)
+			if a is None or b is None:
+				return None, wa or wb
+			return a | b, ''
+		if isinstance(e, ast.JoinedStr):
+			parts: list[list[str]] = []
+			for v in e.values:
+				if isinstance(v, ast.Constant):
+					parts.append([str(v.value)])
+					continue
+				vs, why = self._values(f, v.value, depth + 1)
+				if vs is None:
+					return None, why
+				parts.append(sorted(vs))
+			return {''.join(p) for p in itertools.product(*parts)}, ''
+		if isinstance(e, ast.BinOp) and isinstance(e.op, ast.Add):
+			a, wa = self._values(f, e.left, depth + 1)
+			b, wb = self._values(f, e.right, depth + 1)
+			if a is None or b is None:
+				return None, wa or wb
+			return {x + y for x in a for y in b}, ''
+		if src == 'node.classification':
+			cls = self._classifications(f)
+			if not cls:
+				return None, f'no on_* handler reaches {f.name}, cannot bound node.classification'
+			return set(cls), ''
+		facts = self._branch_facts(f, e)
+		if isinstance(e, ast.Attribute) and e.attr == 'name' and isinstance(e.value, ast.Name) and (e.value.id + '#enum') in facts or src == 'spec.name':
+			var = e.value.id if isinstance(e, ast.Attribute) and isinstance(e.value, ast.Name) else 'spec'
+			if var not in facts:
+				return None, f'{var}.name used outside a branch pinning `{var} == <Enum>.Tags.<member>`'
+			members = self._enum_members(str(facts.get(var + '#enum', '')))
+			got = set(facts[var])  # type: ignore
+			if members is not None and not got <= members:
+				return None, f'{facts.get(var + "#enum")}.{sorted(got - members)} is not a member of the enum'
+			return got, ''
+		if src == 'context_name':
+			if 'context_name' in facts:
+				return set(facts['context_name']), ''  # type: ignore
+			if 'spec' in facts and len(facts['spec']) == 1:  # type: ignore
+				member = next(iter(facts['spec']))  # type: ignore
+				owner = self.mod.classes.get(str(facts.get('spec#enum', '')).rsplit('.', 1)[0])
+				lst = owner.class_attrs.get(f'{member}_methods') if owner else None
+				vals = self._const_list(lst, owner) if lst is not None else None
+				if vals is None:
+					return None, f'context_name is not pinned and {member}_methods is not a constant list'
+				return {x for x in vals if x not in self._pinned_elsewhere(f, member, 'context_name')}, ''
+			return None, 'context_name used without a pinned spec'
+		if isinstance(e, ast.Name):
+			vals = self._local_values(f, e.id, e, depth)
+			if vals is None:
+				return None, f'cannot bound local `{e.id}` in template expression'
+			return vals, ''
+		return None, f'unsupported interpolation `{src}`'
+
+	def _local_values(self, f: FuncInfo, name: str, at: ast.AST, depth: int = 0) -> set[str] | None:
+		"""string values a local can hold: union over its assignments of constants, node.classification, conditional expressions, f-strings,
+		dict.get(k, default) over a constant dict"""
 		vals: set[str] = set()
 		found = False
 		for n in walk_no_nested(f.node):
-			if isinstance(n, ast.Assign) and len(n.targets) == 1 and isinstance(n.targets[0], ast.Name) and n.targets[0].id == name:
+			tgt = n.targets[0] if isinstance(n, ast.Assign) and len(n.targets) == 1 else n.target if isinstance(n, ast.AnnAssign) and n.value is not None else None
+			if isinstance(tgt, ast.Name) and tgt.id == name:
 				found = True
 				v = n.value
 				if const_str(v) is not None:
 					vals.add(const_str(v))
 				elif unparse(v) == 'node.classification':
 					vals |= {f.name[3:]} if f.name.startswith('on_') else self.classifications_reaching(f.name)
+				elif isinstance(v, (ast.IfExp, ast.JoinedStr, ast.BinOp, ast.Name, ast.Attribute)) and self._values(f, v, depth + 1)[0] is not None:
+					vals |= self._values(f, v, depth + 1)[0]  # type: ignore
 				elif isinstance(v, ast.Call) and isinstance(v.func, ast.Attribute) and v.func.attr == 'get' and len(v.args) == 2:
 					ch = attr_chain(v.func.value)
 					d = None
